@@ -264,11 +264,44 @@ func readLeaf(v reflect.Value, f LField, decoded bool) string {
 
 var pool32 = []uint32{0, 1, 2, 255, 256, 65535, 65536, 0xffffff, 0x1000000, 0xffffffff, 0xfffffffe, 0x01020304, 0x80000000, 999999, 1000000, 405419896, 0x55aaaa55}
 
+// a 32-bit value built byte by byte from the bytes masks and comparisons tend to single out (so that, say, "low 24 bits
+// all ones" or "top byte zero" is met with any value of the remaining bytes)
+func patternU32(r *Rand) uint32 {
+	var v uint32
+	if r.Intn(2) == 0 { // the k low (or high) bytes all ones or all zero, the rest arbitrary
+		k := uint(8 * (1 + r.Intn(3)))
+		x := r.U32()
+		switch r.Intn(4) {
+		case 0:
+			return x | (1<<k - 1)
+		case 1:
+			return x &^ (1<<k - 1)
+		case 2:
+			return x | ^uint32(0)<<(32-k)
+		}
+		return x &^ (^uint32(0) << (32 - k))
+	}
+	for i := 0; i < 4; i++ {
+		b := []uint32{0x00, 0xff, 0x01, 0x7f, 0x80, 0xfe}[r.Intn(6)]
+		if r.Intn(4) == 0 {
+			b = uint32(r.Byte())
+		}
+		v |= b << uint(8*i)
+	}
+	return v
+}
+
 func genU32(r *Rand) uint32 {
+	switch r.Intn(4) {
+	case 3:
+		return patternU32(r)
+	}
 	switch r.Intn(3) {
 	case 0:
-		if ds := dictIntsOf(32); len(ds) > 0 && r.Intn(4) == 0 { // a number the source itself names
-			return uint32(ds[r.Intn(len(ds))])
+		if r.Intn(4) == 0 { // derived from a number the source itself names
+			if v, ok := dictU32(r); ok {
+				return v
+			}
 		}
 		return pool32[r.Intn(len(pool32))]
 	case 1:
